@@ -20,6 +20,7 @@ def tasks(tier):
          ("t_resample", {"n_snap": 2, "m": 2, "n_samples": None})]
     if tier == "thorough":
         t += [("t_resample", {"n_snap": 1, "m": 3, "n_samples": 2}), ("t_resample", {"n_snap": 1, "m": 4, "n_samples": 1})]
+    t += [("t_seed_plumbing", {})]
     t += [("t_shapes", {"ndim_o": a, "ndim_f": b}) for a in (3, 4, 5) for b in (1, 2, 3)]
     return t
 
@@ -56,6 +57,7 @@ def t_resample(sess, n_snap, m, n_samples):
             c.assume((tot == 1).z3())
         A, f = A.view(SArr), f.view(SArr)
         A0, f0 = A.view(np.ndarray).copy(), f.view(np.ndarray).copy()
+        rlog.clear()
         out = stats.resample_orientations(A, f, n_samples=n_samples, seed=12345)
         return A0, f0, out, list(rlog), A, f
 
@@ -83,6 +85,7 @@ def t_resample(sess, n_snap, m, n_samples):
                        z3.BoolVal(oA.shape == (n_snap, ns, 3, 3) and of.shape == (n_snap, ns)))
             sess.prove(f"{tag}: the generator is created from the given seed, one draw of n_samples variates per snapshot", p.pc,
                        z3.BoolVal(seen_seed.get("seed") == 12345 and len(us) == n_snap and all(len(u) == ns for u in us)))
+
             sess.prove(f"{tag}: inputs are not modified", p.pc, z3.And(all_eq(A, A0), all_eq(f, f0)))
         for s in range(n_snap):
             for j in range(ns):
@@ -112,10 +115,38 @@ def t_resample(sess, n_snap, m, n_samples):
                 # grains with equal volume share an interval block: allow any position inside the block
                 block = sum((sym.ite((R(f0[s, h]) == R(f0[s, g])), f0[s, h], R(0)) for h in range(m)), R(0))
                 sess.prove(f"{pt}: snapshot {s} sample {j}: u lies in the cumulative-volume interval of the drawn grain's volume class", p.pc,
-                           z3.And((u >= below).z3(), (u <= below + block).z3()), tags={"optional": True})
+                           z3.And((u >= below).z3(), (u <= below + block).z3()))
     if not reached:
         sess.reach.append(solve.QueryResult(f"{tag}: reach", "unknown", None, 0.0))
     sample(sess, obligation="resampling", config=tag, paths=len(paths))
+
+
+def t_seed_plumbing(sess):
+    """Every seed value, including the falsy ones, is handed to numpy's generator factory unchanged."""
+    stats = pydrex_modules()["stats"]
+    seen = []
+
+    class Stop(Exception):
+        pass
+
+    class RandomSpy:
+        @staticmethod
+        def default_rng(seed="unset"):
+            seen.append(seed)
+            raise Stop()
+
+    proxy = NpProxy()
+    proxy.random = RandomSpy
+    seeds = [0, None, 7, 12345, np.int64(0)]
+    with np_installed(stats, proxy=proxy):
+        for sd in seeds:
+            try:
+                stats.resample_orientations(np.zeros((1, 2, 3, 3)), np.full((1, 2), 0.5), seed=sd)
+            except Stop:
+                pass
+    ok = len(seen) == len(seeds) and all((a is b) or (a is not None and b is not None and a == b and type(a) is type(b)) for a, b in zip(seeds, seen))
+    sess.prove(f"seed plumbing: seeds {seeds!r} reach default_rng unchanged (got {seen!r})", [], z3.BoolVal(ok))
+    sess.satisfiable("seed plumbing: reach", [])
 
 
 def replay_zero_volume(case):
